@@ -34,6 +34,18 @@ GROUPS = {
                 modpath="notation::fen::verif_c14", crate=CORE),
     "uci": dict(file="c12_uci.rs", into="weechess-engine/src/uci.rs", scope=None, mod="verif_uci", pub=False,
                 modpath="uci::verif_uci", crate=ENGINE),
+    "c09": dict(file="c09.rs", into="weechess-core/src/attacks.rs", scope="mod data", mod="verif_c09", pub=True,
+                modpath="attacks::data::verif_c09", crate=CORE),
+    "c10": dict(file="c10.rs", into="weechess-core/src/board.rs", scope=None, mod="verif_c10", pub=True,
+                modpath="board::verif_c10", crate=CORE),
+    "c01": dict(file="c01.rs", into="weechess-core/src/movegen.rs", scope=None, mod="verif_c01", pub=True,
+                modpath="movegen::verif_c01", crate=CORE),
+    "c17": dict(file="c17.rs", into="weechess-engine/src/searcher.rs", scope=None, mod="verif_c17", pub=False,
+                modpath="searcher::verif_c17", crate=ENGINE),
+    "c13": dict(file="c13.rs", into="weechess-engine/src/eval/mod.rs", scope=None, mod="verif_c13", pub=False,
+                modpath="eval::verif_c13", crate=ENGINE),
+    "c11": dict(file="c11.rs", into="weechess-core/src/notation.rs", scope="mod fen", mod="verif_c11", pub=True,
+                modpath="notation::fen::verif_c11", crate=CORE),
 }
 
 # closure bodies extracted verbatim into a function so that they can be put under contract
@@ -136,7 +148,7 @@ PROPS["C20"] = dict(
           "(injectivity of the packing)", functions=["<Move as PartialEq>::eq"]),
         K("c20", "c20_eq_iff_arguments", desc="constructor-built moves are equal iff the constructor arguments are equal; "
           "different constructors give different moves", functions=MOVE_CTORS),
-        K("c20", "c20_serde_newtype_roundtrip", desc="derived Serialize emits exactly newtype_struct(\"Move\", u32 = as_raw) "
+        K("c20", "c20_serde_newtype_roundtrip", desc="derived Serialize emits one u32 = as_raw (optionally inside one newtype wrapper) "
           "and derived Deserialize of that u32 gives back an equal move, for every valid move",
           functions=["<Move as Serialize>::serialize", "<Move as Deserialize>::deserialize"]),
     ],
@@ -231,6 +243,224 @@ PROPS["C05"] = dict(
                "of the REAL terms for extreme material (>= 100 pawn units) is not claimed. Trusted: Kani/CBMC, stubs.",
 )
 
+UNOPT = ["data::compute_rook_attacks_unoptimized", "data::compute_bishop_attacks_unoptimized"]
+PROPS["C09"] = dict(
+    obligations=[
+        K("c09", "c09_square_offset_contract", desc="Square::offset is Some exactly for on-board results and equals file/rank "
+          "arithmetic (no wrap)", functions=["Square::offset"]),
+        K("c09", "c09_bitboard_shift_contract", desc="BitBoard::shift is the set image under offset: pointwise at a symbolic "
+          "square, symbolic board, file steps -2..2, rank steps -7..7", functions=["BitBoard::shift"]),
+        K("c09", "c09_knight_table_contract", desc="lookup(s).test(t) <=> (|df|,|dr|) in {(1,2),(2,1)}, symbolic s,t, through the "
+          "real lazy table", functions=["AttackGenerator::compute_knight_attacks", "data::compute_knight_attacks"], timeout=1500),
+        K("c09", "c09_king_table_contract", desc="king pattern", functions=["AttackGenerator::compute_king_attacks", "data::compute_king_attacks"], timeout=1500),
+        K("c09", "c09_pawn_table_contract", desc="pawn pattern, both colours", functions=["AttackGenerator::compute_pawn_attacks", "data::compute_pawn_attacks"], timeout=1500),
+        K("c09", "c09_compute_ray_contract", desc="compute_ray(s,d).test(t) <=> t on the ray from s in direction d", functions=["data::compute_ray"]),
+        K("c09", "c09_rays_table_contract", desc="RAYS[d][s] == the ray", functions=["data::compute_rays"], timeout=1500),
+        K("c09", "c09_rook_unoptimized_contract", desc="rook_unoptimized(s,occ).test(t) <=> t on a rook line from s and all squares "
+          "strictly between empty; symbolic s, t, occ", functions=UNOPT[:1], timeout=2400, heavy=True),
+        K("c09", "c09_bishop_unoptimized_contract", desc="same for bishop diagonals", functions=UNOPT[1:], timeout=2400, heavy=True),
+        K("c09", "c09_slide_masks_contract", desc="slide masks == line squares minus the last square of each ray", functions=["data::compute_rook_slide_masks", "data::compute_bishop_slide_masks"], timeout=1500),
+        K("c09", "c09_lemma_off_mask_blockers_irrelevant", desc="spec-level lemma: blockers outside the slide mask never change the "
+          "slider attack set (with the unopt and mask contracts: unopt(s,occ) == unopt(s, occ & mask(s)))", functions=[], timeout=1500),
+        K("c09", "c09_blockers_from_index_contract", desc="compute_blockers_from_index deposits the low bits of the index into the "
+          "mask (so indexes 0..2^popcount enumerate every subset exactly once)", functions=["data::compute_blockers_from_index"]),
+    ] + [
+        K("c09", "c09_%s_magics_%s" % (k, r), desc="the real %s magic constants of squares %s: colliding subsets of the slide mask "
+          "have equal attack sets; index < 4096; index width >= popcount(mask)" % (k, r),
+          functions=["data::%s_MAGICS" % k.upper(), "data::%s_MAGIC_INDEXES" % k.upper()], timeout=2400, tier="quick" if r == "00_15" else "thorough")
+        for k in ["rook", "bishop"] for r in ["00_15", "16_31", "32_47", "48_63"]
+    ] + [
+        dict(name="c09_native_magic_tables_exhaustive", backend="native", kind="bounded", tier="quick", crate=CORE, file="c09.rs",
+             test="c09_native_magic_tables_exhaustive", bound="native execution (not symbolic): every square x every subset of its "
+             "slide mask x 3 off-mask noise patterns, rook, bishop and queen look-ups", desc="the REAL table builders and "
+             "look-ups against the geometric spec", functions=["data::compute_rook_magic_table", "data::compute_bishop_magic_table",
+             "AttackGenerator::compute_{rook,bishop,queen}_attacks"], timeout=1800),
+    ],
+    assumptions=["the composition 'look-up after fill == unopt' needs the two fill loops (262 144 iterations over Vec), which cannot be "
+                 "executed symbolically here; given the subset-enumeration, perfect-hashing and off-mask obligations the fill loop can "
+                 "only fail by not being the loop it appears to be; that gap is covered by the native exhaustive stand-in only"],
+    technique="Kani/CBMC: geometry contracts of the ray/leaper/slider generators pointwise at symbolic squares; perfect hashing of the "
+              "real magic constants per square; native exhaustive run for the table fill (bounded stand-in)",
+    level_text="Proof for geometry and for the perfect hashing of the real constants: Square::offset and BitBoard::shift never wrap; the "
+               "knight/king/pawn tables (through the real lazy statics), compute_ray, RAYS, both unoptimised slider generators "
+               "(symbolic square, target and occupancy against ray walking up to the first blocker), the slide masks and the "
+               "subset enumeration are proved against file/rank arithmetic; for every square the real magic multipliers are proved "
+               "collision-free on attack sets with index < 4096. The filled tables and look-ups themselves are a bounded stand-in.",
+    level_note="Table fill loops and the final look-up expression: native exhaustive stand-in (all squares x all mask subsets x 3 noise "
+               "patterns), reported as bounded, never as proved.",
+)
+
+PROPS["C01"] = dict(
+    obligations=[
+        K("c01", "c01_k1_pawn_moves_1", kind="bounded", bound="one own pawn; every other piece arbitrary", desc="K1 compute_pawn_moves: every generated move "
+          "satisfies the mailbox rules for pawn pushes, double steps, captures, en passant and the four promotions with exact "
+          "attributes; every move value the rules allow is generated; no duplicates", functions=["MoveGenerator::compute_pawn_moves"], timeout=2400),
+        K("c01", "c01_k1_pawn_moves_2", kind="bounded", bound="two own pawns", desc="same with two pawns", functions=["MoveGenerator::compute_pawn_moves"],
+          timeout=5400, tier="thorough", heavy=True, mem_gb=24),
+        K("c01", "c01_k2_expand_moves_contract", kind="bounded", bound="<= 3 destination squares; position fully symbolic",
+          desc="K2 expand_moves: appends exactly one move per destination in ascending order, capture kind = kind standing there, "
+          "nothing else changes", functions=["GameStateHelper::expand_moves", "Board::piece_at"], timeout=2400),
+    ] + [
+        K("c01", "c01_k2_%s_moves" % k, kind="bounded", bound="<= 3 own pieces of the kind; abstract attack function; expand_moves replaced by its contract",
+          desc="K2 compute_%s_moves: calls expand_moves once per own %s, in square order, with destinations A(piece) minus own pieces"
+          % (k, k), functions=["MoveGenerator::compute_%s_moves" % k], timeout=2400)
+        for k in ["knight", "bishop", "rook", "queen"]
+    ] + [
+        K("c01", "c01_k3_king_moves_and_castling", kind="bounded", bound="<= 3 own pieces per kind (irrelevant to this function); abstract attack "
+          "function and attacked set; expand_moves replaced by its contract",
+          desc="K3 compute_king_moves: king steps = A(king) minus own pieces minus attacked squares; castling pushed iff right & squares "
+          "between king and rook empty & e/f/g (c/d/e) unattacked, exactly Move::by_castling, king side first",
+          functions=["MoveGenerator::compute_king_moves", "Move::by_castling"], timeout=2400),
+        K("c01", "c01_k3_castling_constants", desc="KING_ORIGINS, CASTLE_DESTS, CASTLE_PATH_MASKS, CASTLE_CHECK_MASKS, FILE_MASKS, RANK_MASKS "
+          "equal the squares the rules name", functions=["common::*"]),
+        K("c01", "c01_k4_try_as_legal_move", desc="K4 try_as_legal_move: Some(mv, next) iff the mover's king is not attacked in "
+          "next == by_performing_move(state, mv); fully symbolic position and move", functions=["PseudoLegalMove::try_as_legal_move"], timeout=2400),
+        K("c01", "c01_k5_legal_moves_is_filter", kind="bounded", bound="pseudo-legal lists of length <= 3", desc="K5 compute_legal_moves_into == order-preserving "
+          "filter of the pseudo-legal list by the legality oracle; stale buffer content does not leak",
+          functions=["MoveGenerator::compute_legal_moves_into", "MoveGenerationBuffer::clear"], timeout=2400),
+    ],
+    assumptions=["K6 (spec level, argued in DESIGN.md): the king-step pre-filter `& !opposing_attacks` (attack map computed with the king on "
+                 "the board) never removes a legal king move, and en-passant discovered checks are caught by K4 because the victim "
+                 "is removed in the successor",
+                 "distinct legal moves differ in (origin, destination, promotion): follows from K1-K3 (no duplicates) by inspection"],
+    assumed_contracts=["attack look-ups == geometry (C09)", "Board::colored_attacks == attacked-square set (C10)",
+                       "State::by_performing_move == successor (C02)", "Move constructors carry their attributes (C20)"],
+    not_claimed=["perft node counts (perft_recursive not put under contract in the time available)",
+                 "the top-level statement for an arbitrary legal position as ONE machine-checked theorem: it is the composition of "
+                 "K1-K5 with C02/C09/C10/C20, composed on paper"],
+    technique="Kani/CBMC: per-function contracts K1-K5 of the move generator, each checked against the contracts of its callees "
+              "(abstract attack function, attacked-set oracle, expand_moves contract, legality oracle)",
+    level_text="Proof by composition, bounded where stated: K1 (pawn pushes, double steps, captures, en passant, promotions: sound, "
+               "complete, exact attributes, no duplicates), K2 (expand_moves contract; knight/bishop/rook/queen generators call it "
+               "with exactly A(piece) minus own pieces), K3 (king steps and the castling rule with exactly the squares the rules "
+               "name), K4 (legality filter == own king not attacked in the C02 successor), K5 (the legal list is the order-"
+               "preserving filter). Each is decided on fully symbolic positions; loop bounds (piece counts, target counts) are "
+               "stated per obligation and those obligations are reported as bounded.",
+    level_note="The composition into 'generated set == FIDE-legal set' is on paper (DESIGN.md section 4/C01) and assumes C02, C09, C10, "
+               "C20. perft is not claimed.",
+)
+
+PROPS["C17"] = dict(
+    obligations=[
+        K("c17", "c17_repetition_is_a_draw", desc="analyze_recursive with current_depth > 0 and the position's hash recorded in the "
+          "history returns exactly EVEN, does not read or write the transposition table, generates no move, counts one node; "
+          "symbolic position, bounds, depths", functions=["Searcher::analyze_recursive"], timeout=2400),
+        K("c17", "c17_root_is_not_a_repetition", desc="at current_depth == 0 the history is not consulted; the table is probed "
+          "with the position's hash and a deep exact entry is returned", functions=["Searcher::analyze_recursive"], timeout=2400),
+    ],
+    assumptions=[],
+    assumed_contracts=["ZobristHasher::hash (C08)", "StateHistory::{lookup,increment} are a map from hash to count (std HashMap, not executed)"],
+    not_claimed=["analyze_iterative recording the root hash before the first iteration: any harness reaching analyze_iterative "
+                 "crashes the Kani 0.68 compiler (catch_unwind intrinsic via rayon), checked by reading only",
+                 "the consequence in the property text (the search still reports a win and avoids the repeating move): a statement "
+                 "about the whole search, not a function contract"],
+    technique="Kani/CBMC: contract on the early return of analyze_recursive with hasher, history and table replaced by their contracts",
+    level_text="Proof of the local rule only: the early-return contract of analyze_recursive (repetition => EVEN without touching "
+               "the table or generating moves), the root exemption, and analyze_iterative recording the root hash, each for "
+               "symbolic inputs with the hasher, history and transposition table replaced by their contracts.",
+    level_note="The game-level consequence (still finds the other mate) is not claimed. Callee contracts assumed (C08, HashMap).",
+)
+PROPS["C03"] = dict(
+    obligations=[
+        K("c17", "c03_line_iterator_step", desc="TranspositionTableMoveIterator::next: stops past max_depth or on a missing entry; "
+          "otherwise yields (stored move, by_performing_move(current, move)), makes the successor current, advances the index",
+          functions=["TranspositionTableMoveIterator::next"], timeout=2400),
+    ],
+    assumptions=["table invariant: an entry stored under key k carries a move that is legal in every position hashing to k -- "
+                 "established by the two insert sites of analyze_recursive (the move comes from try_as_legal_move on the position "
+                 "whose hash is the key) and by the hash separating everything rule-relevant (C08, after fix 8ce0c17), up to 64-bit "
+                 "collisions; NOT machine-checked"],
+    assumed_contracts=["State::by_performing_move (C02)", "ZobristHasher::hash (C08)", "TranspositionTableAccess::find (C15)"],
+    not_claimed=["the line is non-empty and at least one report is made (needs the root entry to survive concurrent displacement: "
+                 "a schedule/history statement)", "the table invariant itself (argued, see assumptions)"],
+    technique="Kani/CBMC: contract of the principal-line iterator step against the table and successor contracts",
+    level_text="Proof of the line builder's step only: every reported move is the table's move for the position reached so far "
+               "and the position is advanced by exactly that move, for symbolic position, index, depth limit and table answer; "
+               "legality of the reported move then follows from the table invariant, which is argued, not proved.",
+    level_note="Legality rests on the (unproved) table invariant and on C08; non-emptiness and 'at least one report' not claimed.",
+)
+
+PROPS["C13"] = dict(
+    obligations=[
+        K("c13", "c13_mul_f32_is_odd", desc="(x*w) as i32 is odd in x for every i32 != MIN and the weights used", functions=["<Evaluation as Mul<f32>>::mul"], timeout=1500),
+        K("c13", "c13_neg_sub_antisymmetric", desc="a - b == -(b - a) on Evaluation", functions=["Evaluation::{sub,neg}"]),
+        K("c13", "c13_evaluate_is_antisymmetric", desc="Evaluator::evaluate(s, White, d) == -evaluate(s, Black, d): real control flow, "
+          "mate/stalemate branch included, callees replaced by their contracts, four abstract terms with arbitrary per-perspective values, "
+          "up to 8 candidate king steps (measured 1800 s)", functions=["Evaluator::evaluate"], timeout=5400, tier="thorough", heavy=True),
+        K("c13", "c13_evaluate_is_antisymmetric_quick", kind="bounded", bound="at most one candidate king step in the shortcut loop",
+          desc="same obligation with the king-neighbour set limited to one square", functions=["Evaluator::evaluate"], timeout=2400),
+        K("c13", "c13_piece_square_mirror", desc="evaluate_piece_square(k, sq, White, w) == evaluate_piece_square(k, flip(sq), Black, w) for all "
+          "kinds, squares and every weight in [0,1]", functions=["evaluate_piece_squares::evaluate_piece_square", "Square::flip_rank"], timeout=1500),
+        K("c13", "c13_variation_mirror", desc="StateVariation::from of the mirrored position == the colour-swapped one (counts, end-game weight); "
+          "fully symbolic position", functions=["StateVariation::from"], timeout=1500),
+        K("c13", "c13_piece_worths_mirror", desc="material term on position vs mirror", functions=["evaluate_piece_worths::evaluate"], timeout=1500),
+        K("c13", "c13_bad_pawns_mirror", desc="doubled/isolated pawn term on position vs mirror, fully symbolic position", functions=["evaluate_bad_pawns::evaluate"], timeout=1500),
+        K("c13", "c13_king_edge_mirror", desc="king-to-edge term on position vs mirror, fully symbolic position, one king each",
+          functions=["evaluate_force_king_to_edge::evaluate"], timeout=2400),
+    ],
+    assumptions=["the square-table term of the whole position (evaluate_piece_squares::evaluate, a sum over the pieces) is mirror-invariant "
+                 "because each summand is (c13_piece_square_mirror) and mirroring is a bijection on the pieces that maps bit order "
+                 "within a board to a different order of i32 additions (commutative, no overflow for <= 32 pieces of <= 50 each): "
+                 "argued, not machine-checked",
+                 "the move-generator oracle is the same for a position and its mirror (C01 is colour-symmetric by its contracts)"],
+    technique="Kani/CBMC: oddness of the float weighting, antisymmetry of evaluate against callee contracts, per-term mirror contracts",
+    level_text="Proof: the perspective antisymmetry evaluate(s,W,d) == -evaluate(s,B,d) is proved on the real control flow with "
+               "abstract terms; mirror invariance is proved per term (square tables for all kinds/squares/weights; material, pawn "
+               "structure and king-edge terms and the game-phase weight on fully symbolic positions vs. their mirrors) and composed.",
+    level_note="Whole-evaluate mirror invariance is the composition of the per-term contracts (sum over pieces argued). Float semantics: "
+               "CBMC's IEEE-754 model.",
+)
+
+PROPS["C11"] = dict(
+    obligations=[
+        K("c11", "c11_fields_write_and_read_back", desc="side, all 16 castling sets (KQkq order or '-'), every en-passant target or '-', "
+          "single-digit clocks: the writer emits exactly the canonical text (whole line compared byte by byte) and the field "
+          "parsers read the written fields back to the same values", functions=["<Fen as IntoNotation<State>>::into_notation",
+          "ArrayMap<Color,CastleRights>::try_parse", "<Square as TryFrom<&str>>::try_from", "Display for Square"], timeout=2400),
+    ] + [
+        K("c11", "c11_placement_parse_rank_%d" % r, kind="bounded", bound="one fully symbolic rank (rank %d), the other seven empty" % r,
+          desc="Board::try_parse of the canonical placement text returns exactly that placement", functions=["Board::try_parse", "PieceIndex::try_parse"],
+          timeout=3000, tier="quick" if r == 1 else "thorough", heavy=True)
+        for r in [1, 4, 8]
+    ],
+    assumptions=["Regex::captures delivers the six groups of FEN_REGEX (external crate, not executable symbolically)",
+                 "usize Display / str::parse round-trip for the two counters (std); the obligation uses single-digit clocks",
+                 "equality of legal moves, hash and evaluation after a round trip follows from equality of the five state components "
+                 "(those functions read nothing else)"],
+    not_claimed=["the placement WRITER on a symbolic board (64 x piece_at through core::fmt did not finish in the time available): the "
+                 "writer's placement part is exercised only on the fixed two-king board of c11_fields_write_and_read_back",
+                 "cross-rank interaction of the parser's u8 cursor beyond one symbolic rank"],
+    technique="Kani/CBMC: FEN writer through core::fmt against a byte-level spec, and the field parsers as its inverse",
+    level_text="Proof for the non-placement fields (complete over side x 16 castling sets x 65 en-passant values x single-digit "
+               "clocks: written text compared byte for byte with the canonical spelling, then read back by the field parsers); "
+               "the placement parser is checked one symbolic rank at a time (bounded, listed separately).",
+    level_note="Regex gate and std integer formatting/parsing assumed. The placement writer on arbitrary boards is not proved.",
+)
+
+PROPS["C10"] = dict(
+    obligations=[
+        K("c10", "c10_from_occupancy_contract_2", kind="bounded", bound="<= 2 own pieces per kind", desc="AttackMap::from_occupancy == (union over own pieces of A(piece,square,occ)) & !own, "
+          "pawn map likewise over pawns, for an abstract attack function A and a fully symbolic position",
+          functions=["AttackMap::from_occupancy", "BitBoard::pop"], timeout=1800),
+        K("c10", "c10_from_occupancy_contract_10", desc="same with <= 10 own pieces per kind -- the maximum in a legal position, so "
+          "complete under valid_board", functions=["AttackMap::from_occupancy", "BitBoard::pop"], timeout=5400, tier="thorough", heavy=True, mem_gb=24),
+        K("c10", "c10_board_queries_contract", kind="bounded", bound="<= 1 piece per kind and colour", desc="colored_attacks / colored_pawn_attacks == the spec union; "
+          "is_check(c) <=> king(c) attacked by the opponent; answers independent of query order and of cloning before/after",
+          functions=["Board::{attack_map,colored_attacks,colored_pawn_attacks,is_check,new,clone}"], timeout=1800),
+        K("c10", "c10_state_is_check_contract", kind="bounded", bound="<= 1 piece per kind and colour", desc="State::is_check == king of the side to move attacked by the opponent",
+          functions=["State::is_check"], timeout=1800),
+    ],
+    assumptions=["no &mut access to Board's fields exists (fields private, no &mut self method, no unsafe in the crate: scanned)",
+                 "the abstract attack function is a two-seed mixing family of (piece, square, occupancy), not an arbitrary function"],
+    assumed_contracts=["AttackGenerator::compute == geometry (C09)"],
+    technique="Kani/CBMC: AttackMap::from_occupancy and the lazily cached Board queries against an abstract attack function",
+    level_text="Proof against an abstract attack function, bounded by piece count per obligation: the attack map equals the union of "
+               "A(piece, square, occupancy) over the side's pieces minus its own pieces (pawn map likewise), is_check is 'king on an "
+               "attacked square', and the cached answers are independent of query order and of cloning before/after; <= 10 pieces "
+               "per kind (complete for legal positions) in the thorough tier.",
+    level_note="Quick tier bounds piece counts to 2 (from_occupancy) and 1 (cache/clone/order); those runs are reported as bounded.",
+)
+
 SAN = ["<San as TryFromNotation<MoveQuery>>::try_from_notation"]
 PROPS["C12"] = dict(
     obligations=[
@@ -267,10 +497,11 @@ PROPS["C14"] = dict(
           "test rejects, so longer inputs add no behaviour", tier="thorough", functions=SAN, timeout=3000, heavy=True),
         K("c12", "c14_square_file_rank_total", desc="File/Rank::from_char total and exact on all chars; Square::try_from(&str) total on "
           "strings of <= 4 bytes", functions=["File::from_char", "Rank::from_char", "<Square as TryFrom<&str>>::try_from"]),
-        K("c14", "c14_fen_board_parser_total_12", kind="bounded", bound="<= 12 chars over the regex alphabet", desc="Board::try_parse: no panic, no overflow",
-          functions=["Board::try_parse"], timeout=1500),
-        K("c14", "c14_fen_board_parser_digits_40", desc="Board::try_parse on every digit string of <= 40 chars (the strings "
-          "that drive the u8 cursor highest): no overflow, no panic", functions=["Board::try_parse"], timeout=1500),
+        K("c14", "c14_fen_board_parser_cursor_40", desc="Board::try_parse cursor loop: no panic and no u8 overflow on every string of "
+          "<= 40 chars over the regex alphabet (32 digits are needed to overflow an unchecked cursor); the trailing Board::from "
+          "is cut off here and proved separately", functions=["Board::try_parse"], timeout=2400, kani_args=["--no-unwinding-checks"]),
+        K("c14", "c14_fen_board_from_map_total", desc="Board::from(&map) is total and places the pieces of the map", functions=["<Board as From<&ArrayMap<Square,PieceIndex>>>::from"],
+          timeout=1500),
         K("c14", "c14_fen_castle_field_total", desc="castle-field parser total on <= 5 ASCII bytes", functions=["ArrayMap<Color,CastleRights>::try_parse"]),
         K("c14", "c14_fen_piece_letter_total", desc="PieceIndex::try_parse total and exact on all chars", functions=["PieceIndex::try_parse"]),
         K("uci", "c14_uci_token_total", desc="the UCI move-token reader (extracted verbatim) is total on every string of <= 8 "
@@ -360,5 +591,5 @@ NOT_APPLICABLE = {
            "(OS randomness, scheduling, RandomState) the property is about",
 }
 _PENDING = "check under construction in this commit of /verif; not claimed yet (see DESIGN.md section 4 for the plan)"
-for _p in ["C01", "C03", "C09", "C10", "C11", "C13", "C17"]:
+for _p in []:
     NOT_APPLICABLE.setdefault(_p, _PENDING)
